@@ -66,6 +66,12 @@ pub fn find<C: Case, A: Automaton, const N: usize, const AN: u8>(aut: &A) {
     let got = aut.try_find(&inp).unwrap();
     let want = oracle::find(C::pats(), &hay[..], s, e, C::MK, a, C::CI);
     assert!(same(got, want), "search result differs from the definition");
+    if let Some(m) = got {
+        assert!(
+            m.start() <= m.end() && m.end() <= N && m.pattern().as_usize() < C::NPATS,
+            "malformed match"
+        );
+    }
     cover!(got.is_some(), "a match is found");
     cover!(got.is_none(), "no match is found");
     cover!(got.is_some() && got.unwrap().start() > s, "match after skipping bytes");
@@ -94,4 +100,1355 @@ pub fn iter2<C: Case, A: Automaton, const N: usize, const AN: u8>(aut: &A) {
         cover!(g2.is_none(), "one item then exhaustion");
     }
     core::mem::forget(it);
+}
+
+/// C03/C09: complete drain of a stepwise overlapping search from the initial
+/// state: K calls on one `OverlappingState`, compared element-wise with the
+/// specification's ordered list of all occurrences; after the list is
+/// exhausted every further call must report no match.
+#[cfg(kani)]
+pub fn ov_drain<C: Case, A: Automaton, const N: usize, const K: usize, const AN: u8, const SPAN: bool>(
+    aut: &A,
+) {
+    let hay: [u8; N] = any();
+    let (s, e) = if SPAN { any_span(N) } else { (0, N) };
+    let a = pick_anchored::<AN>();
+    let inp = Input::new(&hay[..]).span(s..e).anchored(anch(a));
+    let mut st = OverlappingState::start();
+    let mut got = [(0usize, 0usize, 0usize); K];
+    let mut ng = 0;
+    let mut late = false;
+    let mut same_end = false;
+    let mut k = 0;
+    while k < K {
+        aut.try_find_overlapping(&inp, &mut st).unwrap();
+        if let Some(m) = st.get_match() {
+            if ng == k {
+                got[k] = (m.pattern().as_usize(), m.start(), m.end());
+                if k > 0 && got[k - 1].2 == m.end() {
+                    same_end = true;
+                }
+                ng = k + 1;
+            } else {
+                late = true;
+            }
+        }
+        k += 1;
+    }
+    assert!(!late, "a match is reported after the search reported no match");
+    // the specification's list, in order (end asc; longest first = start asc;
+    // supply order)
+    let pats = C::pats();
+    let mut nw = 0;
+    let mut end = 0;
+    while end <= N {
+        if end >= s && end <= e {
+            let mut start = 0;
+            while start <= end {
+                if start >= s && (!a || start == s) {
+                    let mut pid = 0;
+                    while pid < pats.len() {
+                        if pats[pid].len() == end - start
+                            && oracle::occ(pats[pid], &hay[..], start, e, C::CI)
+                        {
+                            if nw < K {
+                                assert!(nw < ng, "an occurrence is never reported");
+                                assert!(
+                                    got[nw].0 == pid && got[nw].1 == start && got[nw].2 == end,
+                                    "overlapping search reports a wrong match or a wrong order"
+                                );
+                            }
+                            nw += 1;
+                        }
+                        pid += 1;
+                    }
+                }
+                start += 1;
+            }
+        }
+        end += 1;
+    }
+    // only decide haystacks whose full list fits in K-1 calls (the K-th call
+    // must already be the terminating "no match")
+    assume(nw < K);
+    assert!(nw == ng, "overlapping search reports something that is not an occurrence");
+    cover!(ng >= 3, "three or more overlapping matches");
+    cover!(ng == 0, "no occurrence");
+    cover!(ng >= 1, "at least one match");
+    cover!(same_end, "two consecutive matches with the same end");
+}
+
+/// C03: inductive step of the unanchored stepwise overlapping search. The
+/// pre-state is "the state reached after consuming hay[s..=at] is a match
+/// state and i >= 1 of its matches have been reported"; one call must yield
+/// the specification's next occurrence (same end, else the first at a later
+/// end) or none.
+#[cfg(kani)]
+pub fn ov_step<C: Case, A: Automaton, const N: usize>(aut: &A) {
+    let hay: [u8; N] = any();
+    let (s, e) = any_span(N);
+    let at: usize = any();
+    let i: usize = any();
+    assume(s <= at && at < e);
+    let mut sid = aut.start_state(Anchored::No).unwrap();
+    let mut j = 0;
+    while j < N {
+        if j >= s && j <= at {
+            sid = aut.next_state(Anchored::No, sid, hay[j]);
+        }
+        j += 1;
+    }
+    assume(aut.is_match(sid));
+    assume(i >= 1 && i <= aut.match_len(sid));
+    let mut st = aho_corasick::verif::automaton::overlapping_state(Some(sid), at, Some(i));
+    let inp = Input::new(&hay[..]).span(s..e);
+    aut.try_find_overlapping(&inp, &mut st).unwrap();
+    let got = st.get_match();
+    let mut want =
+        oracle::nth_ending_at(C::pats(), &hay[..], s, e, at + 1, i, false, C::CI);
+    if want.is_none() {
+        want = oracle::first_ending_from(C::pats(), &hay[..], s, e, at + 2, false, C::CI);
+    }
+    assert!(same(got, want), "next overlapping match differs from the definition");
+    cover!(got.is_some() && got.unwrap().end() == at + 1, "next match has the same end");
+    cover!(got.is_some() && got.unwrap().end() > at + 1, "next match ends later");
+    cover!(got.is_none(), "no further match");
+}
+
+/// C03: first call(s) of an overlapping search from the fresh state, and the
+/// fresh-state branch that drains a matching start state (empty patterns):
+/// `i` start-state matches have been reported.
+#[cfg(kani)]
+pub fn ov_first<C: Case, A: Automaton, const N: usize>(aut: &A) {
+    let hay: [u8; N] = any();
+    let (s, e) = any_span(N);
+    let i: usize = any();
+    let start = aut.start_state(Anchored::No).unwrap();
+    let nstart = if aut.is_match(start) { aut.match_len(start) } else { 0 };
+    assume(i <= nstart);
+    let mut st = if i == 0 {
+        OverlappingState::start()
+    } else {
+        aho_corasick::verif::automaton::overlapping_state(None, 0, Some(i))
+    };
+    let inp = Input::new(&hay[..]).span(s..e);
+    aut.try_find_overlapping(&inp, &mut st).unwrap();
+    let got = st.get_match();
+    let mut want = oracle::nth_ending_at(C::pats(), &hay[..], s, e, s, i, false, C::CI);
+    if want.is_none() {
+        want = oracle::first_ending_from(C::pats(), &hay[..], s, e, s + 1, false, C::CI);
+    }
+    assert!(same(got, want), "first overlapping match differs from the definition");
+    cover!(got.is_some(), "a first match");
+    cover!(got.is_none(), "no match at all");
+}
+
+/// C14: existence, `is_match` (= earliest search) and earliest mode.
+#[cfg(kani)]
+pub fn ismatch<C: Case, A: Automaton, const N: usize, const AN: u8>(aut: &A) {
+    let hay: [u8; N] = any();
+    let (s, e) = any_span(N);
+    let a = pick_anchored::<AN>();
+    let inp = Input::new(&hay[..]).span(s..e).anchored(anch(a));
+    let normal = aut.try_find(&inp).unwrap();
+    let early = aut.try_find(&inp.clone().earliest(true)).unwrap();
+    let ex = oracle::exists(C::pats(), &hay[..], s, e, a, C::CI);
+    assert!(normal.is_some() == ex, "find disagrees with existence of an occurrence");
+    assert!(early.is_some() == ex, "is_match/earliest disagrees with existence of an occurrence");
+    if let (Some(me), Some(mn)) = (early, normal) {
+        let t = (me.pattern().as_usize(), me.start(), me.end());
+        assert!(
+            oracle::is_occurrence(C::pats(), &hay[..], s, e, t, a, C::CI),
+            "earliest search returns something that is not an occurrence"
+        );
+        assert!(me.end() <= mn.end(), "earliest search overshoots the normal match");
+        cover!(me.end() < mn.end(), "earliest stops before the normal match ends");
+    }
+    cover!(ex, "an occurrence exists");
+    cover!(!ex, "no occurrence exists");
+}
+
+/// C10: span search == sub-slice search, shifted; result inside the span;
+/// bytes outside the span are irrelevant; start = end + 1 yields nothing.
+#[cfg(kani)]
+pub fn span_rel<C: Case, A: Automaton, const N: usize, const AN: u8>(aut: &A) {
+    let hay: [u8; N] = any();
+    let other: [u8; N] = any();
+    let (s, e) = any_span(N);
+    let a = pick_anchored::<AN>();
+    // `sub` is the sub-slice hay[s..e] moved to offset 0; `mix` equals `hay`
+    // inside the span and is arbitrary outside.
+    let mut sub = [0u8; N];
+    let mut mix = [0u8; N];
+    let mut i = 0;
+    while i < N {
+        if i < e - s {
+            sub[i] = hay[s + i];
+        }
+        mix[i] = if i >= s && i < e { hay[i] } else { other[i] };
+        i += 1;
+    }
+    let r1 = aut.try_find(&Input::new(&hay[..]).span(s..e).anchored(anch(a))).unwrap();
+    let r2 = aut.try_find(&Input::new(&sub[..e - s]).anchored(anch(a))).unwrap();
+    let r3 = aut.try_find(&Input::new(&mix[..]).span(s..e).anchored(anch(a))).unwrap();
+    match (r1, r2) {
+        (None, None) => {}
+        (Some(m1), Some(m2)) => {
+            assert!(
+                m1.pattern() == m2.pattern() && m1.start() == m2.start() + s && m1.end() == m2.end() + s,
+                "span search differs from sub-slice search"
+            );
+            assert!(m1.start() >= s && m1.end() <= e, "match outside the span");
+        }
+        _ => assert!(false, "span search differs from sub-slice search"),
+    }
+    assert!(r1 == r3, "bytes outside the span change the result");
+    // start one past end
+    if e < N {
+        let r4 = aut.try_find(&Input::new(&hay[..]).span(e + 1..e).anchored(anch(a))).unwrap();
+        assert!(r4.is_none(), "a search with start = end + 1 reports a match");
+    }
+    cover!(r1.is_some() && s > 0 && e < N, "match in an interior span");
+    cover!(r1.is_none(), "no match in the span");
+}
+
+/// C10 for the stepwise overlapping search: first step on a span vs on the
+/// sub-slice, and with arbitrary bytes outside the span.
+#[cfg(kani)]
+pub fn span_rel_ov<C: Case, A: Automaton, const N: usize>(aut: &A) {
+    let hay: [u8; N] = any();
+    let other: [u8; N] = any();
+    let (s, e) = any_span(N);
+    let mut sub = [0u8; N];
+    let mut mix = [0u8; N];
+    let mut i = 0;
+    while i < N {
+        if i < e - s {
+            sub[i] = hay[s + i];
+        }
+        mix[i] = if i >= s && i < e { hay[i] } else { other[i] };
+        i += 1;
+    }
+    let mut s1 = OverlappingState::start();
+    let mut s2 = OverlappingState::start();
+    let mut s3 = OverlappingState::start();
+    let i1 = Input::new(&hay[..]).span(s..e);
+    let i2 = Input::new(&sub[..e - s]);
+    let i3 = Input::new(&mix[..]).span(s..e);
+    let mut k = 0;
+    while k < 2 {
+        aut.try_find_overlapping(&i1, &mut s1).unwrap();
+        aut.try_find_overlapping(&i2, &mut s2).unwrap();
+        aut.try_find_overlapping(&i3, &mut s3).unwrap();
+        match (s1.get_match(), s2.get_match()) {
+            (None, None) => {}
+            (Some(m1), Some(m2)) => {
+                assert!(
+                    m1.pattern() == m2.pattern() && m1.start() == m2.start() + s && m1.end() == m2.end() + s,
+                    "overlapping span search differs from sub-slice search"
+                );
+                assert!(m1.start() >= s && m1.end() <= e, "match outside the span");
+            }
+            _ => assert!(false, "overlapping span search differs from sub-slice search"),
+        }
+        assert!(s1.get_match() == s3.get_match(), "bytes outside the span change the result");
+        k += 1;
+    }
+    cover!(s1.get_match().is_some() && s > 0, "second overlapping match in an offset span");
+}
+
+/// C16(b): the documented caller-written search loop vs the built-in search.
+#[cfg(kani)]
+pub fn recipe<C: Case, A: Automaton, const N: usize>(aut: &A) {
+    let hay: [u8; N] = any();
+    let n: usize = any();
+    assume(n <= N);
+    let haystack = &hay[..n];
+    let builtin = aut.try_find(&Input::new(haystack)).unwrap();
+    // --- the recipe from the `Automaton` docs, verbatim in structure ---
+    let standard = matches!(aut.match_kind(), aho_corasick::MatchKind::Standard);
+    let mut sid = aut.start_state(Anchored::No).unwrap();
+    let mut at = 0;
+    let mut mat: Option<Match> = None;
+    let mut done = false;
+    if aut.is_match(sid) {
+        let pid = aut.match_pattern(sid, 0);
+        let len = aut.pattern_len(pid);
+        mat = Some(Match::new(pid, (at - len)..at));
+        if standard {
+            done = true;
+        }
+    }
+    while !done && at < haystack.len() {
+        sid = aut.next_state(Anchored::No, sid, haystack[at]);
+        if aut.is_special(sid) {
+            if aut.is_dead(sid) {
+                done = true;
+            } else if aut.is_match(sid) {
+                let pid = aut.match_pattern(sid, 0);
+                let len = aut.pattern_len(pid);
+                mat = Some(Match::new(pid, (at + 1 - len)..at + 1));
+                if standard {
+                    done = true;
+                }
+            }
+        }
+        at += 1;
+    }
+    assert!(mat == builtin, "the documented search recipe differs from the built-in search");
+    cover!(mat.is_some(), "recipe finds a match");
+    cover!(mat.is_none(), "recipe finds nothing");
+}
+
+/// Observations that every `Automaton` state must satisfy (C16a) and that two
+/// related states of different representations must agree on (C04).
+#[cfg(kani)]
+#[inline(always)]
+fn sim_observe<X: Automaton, Y: Automaton>(x: &X, y: &Y, tx: StateID, ty: StateID, npats: usize) {
+    assert!(x.is_match(tx) == y.is_match(ty), "related states disagree on is_match");
+    assert!(x.is_dead(tx) == y.is_dead(ty), "related states disagree on is_dead");
+    assert!(x.is_special(tx) == y.is_special(ty), "related states disagree on is_special");
+    assert!(x.is_start(tx) == y.is_start(ty), "related states disagree on is_start");
+    // contract of the state classes
+    assert!(!(x.is_dead(tx) || x.is_match(tx)) || x.is_special(tx), "dead/match state not flagged special");
+    assert!(!x.is_special(tx) || x.is_dead(tx) || x.is_match(tx) || x.is_start(tx), "special state is neither dead, match nor start");
+    assert!(!(y.is_dead(ty) || y.is_match(ty)) || y.is_special(ty), "dead/match state not flagged special");
+    assert!(!y.is_special(ty) || y.is_dead(ty) || y.is_match(ty) || y.is_start(ty), "special state is neither dead, match nor start");
+    if x.is_match(tx) {
+        let ln = x.match_len(tx);
+        assert!(ln >= 1, "match state without a pattern");
+        assert!(ln == y.match_len(ty), "related states disagree on match_len");
+        let k: usize = any();
+        assume(k < ln);
+        let p = x.match_pattern(tx, k);
+        assert!(p.as_usize() < npats, "match state lists an invalid pattern id");
+        assert!(p == y.match_pattern(ty, k), "related states disagree on match_pattern");
+        assert!(x.pattern_len(p) == y.pattern_len(p), "pattern_len differs");
+    }
+}
+
+/// C04/C16: one simulation step between the contiguous NFA (column 1 of the
+/// relation) and the DFA (column 2): for each related pair in rows LO..HI
+/// (concrete loop) and a symbolic byte, the successors are again related and
+/// all observations agree. AN selects the anchored walk.
+#[cfg(kani)]
+pub fn sim_cd<C: Case, const AN: u8, const LO: usize, const HI: usize>() {
+    let x = C::cnfa();
+    let y = C::dfa();
+    let rel = if AN == ANCHORED { C::rel_a() } else { C::rel_u() };
+    let an = anch(AN == ANCHORED);
+    let mut i = LO;
+    while i < HI {
+        let b: u8 = any();
+        let sx = StateID::new_unchecked(rel[i][1] as usize);
+        let sy = StateID::new_unchecked(rel[i][2] as usize);
+        let tx = x.next_state(an, sx, b);
+        let ty = y.next_state(an, sy, b);
+        let mut found = false;
+        let mut j = 0;
+        while j < rel.len() {
+            if rel[j][1] == tx.as_u32() {
+                found = true;
+                assert!(rel[j][2] == ty.as_u32(), "successors are not related (cnfa vs dfa)");
+            }
+            j += 1;
+        }
+        assert!(found, "successor state is outside the proposed relation");
+        if x.is_dead(sx) {
+            assert!(x.is_dead(tx) && y.is_dead(ty), "dead state is not absorbing");
+        }
+        sim_observe(&x, &y, tx, ty, C::NPATS);
+        cover!(x.is_match(tx), "a step into a match state");
+        i += 1;
+    }
+    core::mem::forget(x);
+    core::mem::forget(y);
+}
+
+/// Same step between the noncontiguous NFA (column 0) and the DFA (column 2).
+#[cfg(kani)]
+pub fn sim_nd<C: Case, const AN: u8, const LO: usize, const HI: usize>() {
+    let x = C::nnfa();
+    let y = C::dfa();
+    let rel = if AN == ANCHORED { C::rel_a() } else { C::rel_u() };
+    let an = anch(AN == ANCHORED);
+    let mut i = LO;
+    while i < HI {
+        let b: u8 = any();
+        let sx = StateID::new_unchecked(rel[i][0] as usize);
+        let sy = StateID::new_unchecked(rel[i][2] as usize);
+        let tx = x.next_state(an, sx, b);
+        let ty = y.next_state(an, sy, b);
+        let mut found = false;
+        let mut j = 0;
+        while j < rel.len() {
+            if rel[j][0] == tx.as_u32() {
+                found = true;
+                assert!(rel[j][2] == ty.as_u32(), "successors are not related (nnfa vs dfa)");
+            }
+            j += 1;
+        }
+        assert!(found, "successor state is outside the proposed relation");
+        if x.is_dead(sx) {
+            assert!(x.is_dead(tx) && y.is_dead(ty), "dead state is not absorbing");
+        }
+        sim_observe(&x, &y, tx, ty, C::NPATS);
+        cover!(x.is_match(tx), "a step into a match state");
+        i += 1;
+    }
+    core::mem::forget(x);
+    core::mem::forget(y);
+}
+
+/// Same step between the two NFAs only (used when the DFA does not support the
+/// anchoring mode of the walk).
+#[cfg(kani)]
+pub fn sim_nc<C: Case, const AN: u8, const LO: usize, const HI: usize>() {
+    let x = C::nnfa();
+    let y = C::cnfa();
+    let rel = if AN == ANCHORED { C::rel_a() } else { C::rel_u() };
+    let an = anch(AN == ANCHORED);
+    let mut i = LO;
+    while i < HI {
+        let b: u8 = any();
+        let sx = StateID::new_unchecked(rel[i][0] as usize);
+        let sy = StateID::new_unchecked(rel[i][1] as usize);
+        let tx = x.next_state(an, sx, b);
+        let ty = y.next_state(an, sy, b);
+        let mut found = false;
+        let mut j = 0;
+        while j < rel.len() {
+            if rel[j][0] == tx.as_u32() {
+                found = true;
+                assert!(rel[j][1] == ty.as_u32(), "successors are not related (nnfa vs cnfa)");
+            }
+            j += 1;
+        }
+        assert!(found, "successor state is outside the proposed relation");
+        if x.is_dead(sx) {
+            assert!(x.is_dead(tx) && y.is_dead(ty), "dead state is not absorbing");
+        }
+        sim_observe(&x, &y, tx, ty, C::NPATS);
+        i += 1;
+    }
+    core::mem::forget(x);
+    core::mem::forget(y);
+}
+
+/// C04/C16: start states are related, `start_state` fails exactly for the
+/// anchoring the DFA was not built for, the dead state is absorbing in every
+/// representation, and all metadata getters agree.
+#[cfg(kani)]
+pub fn sim_meta<C: Case>() {
+    let n = C::nnfa();
+    let c = C::cnfa();
+    let d = C::dfa();
+    let an: bool = any();
+    let a = anch(an);
+    let sn = n.start_state(a).unwrap();
+    let sc = c.start_state(a).unwrap();
+    let rel = if an { C::rel_a() } else { C::rel_u() };
+    let supported = C::SK == 0 || (C::SK == 1 && !an) || (C::SK == 2 && an);
+    let rd = d.start_state(a);
+    assert!(rd.is_ok() == supported, "DFA start_state does not fail exactly for the unsupported anchoring");
+    let mut found = false;
+    let mut j = 0;
+    while j < rel.len() {
+        if rel[j][0] == sn.as_u32() {
+            found = true;
+            assert!(rel[j][1] == sc.as_u32(), "start states are not related (nnfa vs cnfa)");
+            if let Ok(sd) = rd {
+                assert!(rel[j][2] == sd.as_u32(), "start states are not related (nnfa vs dfa)");
+            }
+        }
+        j += 1;
+    }
+    assert!(found, "start state missing from the relation");
+    sim_observe(&n, &c, sn, sc, C::NPATS);
+    if let Ok(sd) = rd {
+        sim_observe(&n, &d, sn, sd, C::NPATS);
+    }
+    core::mem::forget(rd);
+    // dead state: id 0 in every representation
+    let b: u8 = any();
+    let dead = StateID::new_unchecked(0);
+    assert!(c.is_dead(dead) && d.is_dead(dead) && n.is_dead(dead), "state 0 is not the dead state");
+    assert!(c.next_state(a, dead, b) == dead, "cnfa dead state is not absorbing");
+    assert!(d.next_state(a, dead, b) == dead, "dfa dead state is not absorbing");
+    // metadata
+    assert!(n.patterns_len() == C::NPATS && c.patterns_len() == C::NPATS && d.patterns_len() == C::NPATS, "patterns_len");
+    assert!(n.match_kind() == c.match_kind() && c.match_kind() == d.match_kind(), "match_kind differs");
+    if C::NPATS > 0 {
+        assert!(n.min_pattern_len() == C::MINLEN && c.min_pattern_len() == C::MINLEN && d.min_pattern_len() == C::MINLEN, "min_pattern_len");
+        assert!(n.max_pattern_len() == C::MAXLEN && c.max_pattern_len() == C::MAXLEN && d.max_pattern_len() == C::MAXLEN, "max_pattern_len");
+        let p: usize = any();
+        assume(p < C::NPATS);
+        let pid = aho_corasick::PatternID::new_unchecked(p);
+        assert!(n.pattern_len(pid) == C::pats()[p].len(), "nnfa pattern_len");
+        assert!(c.pattern_len(pid) == C::pats()[p].len(), "cnfa pattern_len");
+        assert!(d.pattern_len(pid) == C::pats()[p].len(), "dfa pattern_len");
+    }
+    cover!(an && supported, "anchored start supported");
+    core::mem::forget(n);
+    core::mem::forget(c);
+    core::mem::forget(d);
+}
+
+/// nnfa dead state (its sparse list has 256 entries): absorbing for every byte.
+#[cfg(kani)]
+pub fn nnfa_dead<C: Case>() {
+    let n = C::nnfa();
+    let b: u8 = any();
+    let an: bool = any();
+    let dead = StateID::new_unchecked(0);
+    assert!(n.next_state(anch(an), dead, b) == dead, "nnfa dead state is not absorbing");
+    core::mem::forget(n);
+}
+
+// ---------------------------------------------------------------------------
+// C13: rejection depends only on configuration
+
+use aho_corasick::AhoCorasick;
+
+/// The specification's rejection predicate (a)-(d).
+#[inline(always)]
+pub fn rejected(sk: u8, mk: u8, has_empty: bool, anchored: bool, api: u8) -> bool {
+    // (a) anchoring not covered by the start kind
+    let a = (sk == 1 && anchored) || (sk == 2 && !anchored);
+    // (b) overlapping / stream on a non-standard searcher
+    let b = (api == API_OVERLAPPING || api == API_OVERLAPPING_ITER || api == API_STREAM) && mk != 0;
+    // (c) anchored overlapping iterator
+    let c = api == API_OVERLAPPING_ITER && anchored;
+    // (d) stream search with the empty pattern
+    let d = api == API_STREAM && has_empty;
+    a || b || c || d
+}
+
+pub const API_FIND: u8 = 0;
+pub const API_ITER: u8 = 1;
+pub const API_OVERLAPPING: u8 = 2;
+pub const API_OVERLAPPING_ITER: u8 = 3;
+pub const API_STREAM: u8 = 4;
+pub const API_REPLACE: u8 = 5;
+pub const API_IS_MATCH: u8 = 6;
+
+/// Fallible APIs: `Err` iff the predicate holds; never a panic; a constructed
+/// iterator never fails later (two `next()` calls).
+#[cfg(kani)]
+pub fn reject_fallible<C: Case, const N: usize>(ac: &AhoCorasick) {
+    let hay: [u8; N] = any();
+    let an: bool = any();
+    let has_empty = C::NPATS > 0 && C::MINLEN == 0;
+    let inp = Input::new(&hay[..]).anchored(anch(an));
+    let r = ac.try_find(inp.clone());
+    assert!(r.is_err() == rejected(C::SK, C::MK, has_empty, an, API_FIND), "try_find rejection differs from the rule");
+    core::mem::forget(r);
+    let r = ac.try_find_iter(inp.clone());
+    assert!(r.is_err() == rejected(C::SK, C::MK, has_empty, an, API_ITER), "try_find_iter rejection differs from the rule");
+    if let Ok(mut it) = r {
+        let _ = it.next();
+        let _ = it.next();
+        core::mem::forget(it);
+    } else {
+        core::mem::forget(r);
+    }
+    let mut st = OverlappingState::start();
+    let r = ac.try_find_overlapping(inp.clone(), &mut st);
+    assert!(r.is_err() == rejected(C::SK, C::MK, has_empty, an, API_OVERLAPPING), "try_find_overlapping rejection differs from the rule");
+    core::mem::forget(r);
+    let r = ac.try_find_overlapping_iter(inp.clone());
+    assert!(r.is_err() == rejected(C::SK, C::MK, has_empty, an, API_OVERLAPPING_ITER), "try_find_overlapping_iter rejection differs from the rule");
+    if let Ok(mut it) = r {
+        let _ = it.next();
+        let _ = it.next();
+        core::mem::forget(it);
+    } else {
+        core::mem::forget(r);
+    }
+    cover!(an, "anchored request");
+    cover!(!an, "unanchored request");
+}
+
+/// Stream and replace entry points (always unanchored requests).
+#[cfg(kani)]
+pub fn reject_stream_replace<C: Case, const N: usize>(ac: &AhoCorasick) {
+    aho_corasick::verif::buffer::set_spare_capacity(Some(1));
+    let hay: [u8; N] = any();
+    let has_empty = C::NPATS > 0 && C::MINLEN == 0;
+    let r = ac.try_stream_find_iter(&hay[..]);
+    assert!(r.is_err() == rejected(C::SK, C::MK, has_empty, false, API_STREAM), "try_stream_find_iter rejection differs from the rule");
+    if let Ok(mut it) = r {
+        if let Some(x) = it.next() {
+            assert!(x.is_ok(), "stream iterator fails after construction");
+            core::mem::forget(x);
+        }
+        core::mem::forget(it);
+    } else {
+        core::mem::forget(r);
+    }
+    // replacement table of the right length; the haystack is empty so that
+    // only the acceptance decision is exercised here (C12 decides the output)
+    let mut dst: Vec<u8> = Vec::new();
+    let r = ac.try_replace_all_with_bytes(&hay[..0], &mut dst, |_, _, _| true);
+    assert!(r.is_err() == rejected(C::SK, C::MK, has_empty, false, API_REPLACE), "try_replace_all_with_bytes rejection differs from the rule");
+    core::mem::forget(r);
+    core::mem::forget(dst);
+}
+
+/// Infallible APIs in an accepted configuration never panic; in a rejected
+/// configuration they never return (the harness is `should_panic` and the
+/// "returned normally" witness must be unsatisfiable). REJ selects the half.
+#[cfg(kani)]
+pub fn reject_infallible<C: Case, const N: usize, const API: u8, const REJ: bool>(ac: &AhoCorasick) {
+    let hay: [u8; N] = any();
+    let an: bool = any();
+    let has_empty = C::NPATS > 0 && C::MINLEN == 0;
+    let inp = Input::new(&hay[..]).anchored(anch(an));
+    assume(rejected(C::SK, C::MK, has_empty, an, if API == API_IS_MATCH { API_FIND } else { API }) == REJ);
+    match API {
+        API_IS_MATCH => {
+            let _ = ac.is_match(inp);
+        }
+        API_FIND => {
+            let _ = ac.find(inp);
+        }
+        API_ITER => {
+            let mut it = ac.find_iter(inp);
+            let _ = it.next();
+            let _ = it.next();
+            core::mem::forget(it);
+        }
+        API_OVERLAPPING => {
+            let mut st = OverlappingState::start();
+            ac.find_overlapping(inp, &mut st);
+        }
+        _ => {
+            let mut it = ac.find_overlapping_iter(inp);
+            let _ = it.next();
+            let _ = it.next();
+            core::mem::forget(it);
+        }
+    }
+    cover!(true, "returned normally");
+}
+
+/// C11 unit: the builders' letter flip, for all 256 byte values.
+#[cfg(kani)]
+pub fn opp_case() {
+    let b: u8 = any();
+    let got = aho_corasick::verif::prefilter::opposite_case(b);
+    let want = if b >= b'A' && b <= b'Z' {
+        b + 32
+    } else if b >= b'a' && b <= b'z' {
+        b - 32
+    } else {
+        b
+    };
+    assert!(got == want, "opposite_ascii_case flips something other than ASCII letters");
+    cover!(got != b, "a letter is flipped");
+    cover!(got == b, "a non-letter is unchanged");
+}
+
+// ---------------------------------------------------------------------------
+// C06/C15: packed searchers
+
+use crate::PackedCase;
+use aho_corasick::Span;
+
+#[inline(always)]
+fn wellformed(m: &Match, n: usize, npats: usize) -> bool {
+    m.start() <= m.end() && m.end() <= n && m.pattern().as_usize() < npats
+}
+
+/// Packed `find_in` on an exactly sized haystack vs the leftmost definition.
+#[cfg(kani)]
+pub fn pk_find<P: PackedCase, const N: usize>() {
+    let srch = P::searcher();
+    let hay: [u8; N] = any();
+    let (s, e) = any_span(N);
+    let got = srch.find_in(&hay[..], Span { start: s, end: e });
+    let want = oracle::leftmost(P::pats(), &hay[..], s, e, P::KIND, false, false);
+    assert!(same(got, want), "packed search differs from the leftmost definition");
+    if let Some(m) = got {
+        assert!(wellformed(&m, N, P::NPATS), "malformed match");
+        assert!(m.start() >= s && m.end() <= e, "match outside the span");
+    }
+    cover!(got.is_some(), "a match is found");
+    cover!(got.is_none(), "no match is found");
+    cover!(got.is_some() && got.unwrap().start() > s, "match after skipping bytes");
+    core::mem::forget(srch);
+}
+
+/// Packed iterator by K=2 induction over the span start.
+#[cfg(kani)]
+pub fn pk_iter2<P: PackedCase, const N: usize>() {
+    let srch = P::searcher();
+    let hay: [u8; N] = any();
+    let (s, e) = any_span(N);
+    let mut it = aho_corasick::verif::packed::api::find_iter_at(&srch, &hay[..], Span { start: s, end: e });
+    let g1 = it.next();
+    let w1 = oracle::leftmost(P::pats(), &hay[..], s, e, P::KIND, false, false);
+    assert!(same(g1, w1), "first packed iterator item differs from the definition");
+    if let Some((_, _, e1)) = w1 {
+        let g2 = it.next();
+        let w2 = oracle::leftmost(P::pats(), &hay[..], e1, e, P::KIND, false, false);
+        assert!(same(g2, w2), "second packed iterator item differs from the definition");
+        cover!(g2.is_some(), "two items");
+    }
+    core::mem::forget(it);
+    core::mem::forget(srch);
+}
+
+/// Packed span relation (C10): bytes outside the span are irrelevant and the
+/// result equals the search of the sub-slice.
+#[cfg(kani)]
+pub fn pk_span<P: PackedCase, const N: usize>() {
+    let srch = P::searcher();
+    let hay: [u8; N] = any();
+    let other: [u8; N] = any();
+    let (s, e) = any_span(N);
+    let mut sub = [0u8; N];
+    let mut mix = [0u8; N];
+    let mut i = 0;
+    while i < N {
+        if i < e - s {
+            sub[i] = hay[s + i];
+        }
+        mix[i] = if i >= s && i < e { hay[i] } else { other[i] };
+        i += 1;
+    }
+    let r1 = srch.find_in(&hay[..], Span { start: s, end: e });
+    let r2 = srch.find_in(&sub[..e - s], Span { start: 0, end: e - s });
+    let r3 = srch.find_in(&mix[..], Span { start: s, end: e });
+    match (r1, r2) {
+        (None, None) => {}
+        (Some(m1), Some(m2)) => assert!(
+            m1.pattern() == m2.pattern() && m1.start() == m2.start() + s && m1.end() == m2.end() + s,
+            "packed span search differs from sub-slice search"
+        ),
+        _ => assert!(false, "packed span search differs from sub-slice search"),
+    }
+    assert!(r1 == r3, "bytes outside the span change the packed result");
+    cover!(r1.is_some() && s > 0 && e < N, "match in an interior span");
+    core::mem::forget(srch);
+}
+
+/// Teddy on an exactly sized haystack of LEN bytes whose content is a pad
+/// byte except for a symbolic window [OFF, OFF+W); the span start is symbolic
+/// below the window. Every raw-pointer load is checked against the exact
+/// allocation (C15), the result against the definition (C06).
+#[cfg(kani)]
+pub fn pk_teddy<P: PackedCase, const LEN: usize, const OFF: usize, const W: usize, const PAD: u8>() {
+    let srch = P::searcher();
+    let mut hay = [PAD; LEN];
+    let w: [u8; W] = any();
+    let mut i = 0;
+    while i < W {
+        hay[OFF + i] = w[i];
+        i += 1;
+    }
+    let s: usize = any();
+    assume(s <= OFF && s <= LEN);
+    let got = srch.find_in(&hay[..], Span { start: s, end: LEN });
+    let want = oracle::leftmost(P::pats(), &hay[..], s, LEN, P::KIND, false, false);
+    assert!(same(got, want), "Teddy search differs from the leftmost definition");
+    if let Some(m) = got {
+        assert!(wellformed(&m, LEN, P::NPATS), "malformed match");
+    }
+    cover!(got.is_some() && got.unwrap().start() >= OFF, "a match inside the window");
+    cover!(got.is_none() || got.unwrap().start() < OFF, "no match inside the window");
+    core::mem::forget(srch);
+}
+
+// ---------------------------------------------------------------------------
+// C07/C08/C18: stream search
+
+/// Environment: a reader over `data` whose every `read` returns a symbolic
+/// number of bytes in `1..=min(remaining, buf.len())` (0 only at end of data,
+/// as `io::Read` documents), and that fails once if `fail_at` equals the index
+/// of the call.
+pub struct SymReader<'a> {
+    pub data: &'a [u8],
+    pub pos: usize,
+    pub calls: usize,
+    pub fail_at: usize,
+    pub failed: bool,
+    pub eof_seen: bool,
+}
+
+impl<'a> SymReader<'a> {
+    pub fn new(data: &'a [u8], pos: usize, fail_at: usize) -> SymReader<'a> {
+        SymReader { data, pos, calls: 0, fail_at, failed: false, eof_seen: false }
+    }
+}
+
+impl<'a> std::io::Read for SymReader<'a> {
+    fn read(&mut self, buf: &mut [u8]) -> std::io::Result<usize> {
+        let call = self.calls;
+        self.calls += 1;
+        if call == self.fail_at {
+            self.failed = true;
+            return Err(std::io::Error::from(std::io::ErrorKind::Other));
+        }
+        let remaining = self.data.len() - self.pos;
+        if remaining == 0 || buf.len() == 0 {
+            if remaining == 0 {
+                self.eof_seen = true;
+            }
+            return Ok(0);
+        }
+        #[cfg(kani)]
+        let want: usize = any();
+        #[cfg(not(kani))]
+        let want: usize = 1;
+        let mut n = want;
+        if n == 0 {
+            n = 1;
+        }
+        if n > remaining {
+            n = remaining;
+        }
+        if n > buf.len() {
+            n = buf.len();
+        }
+        let mut i = 0;
+        while i < n {
+            buf[i] = self.data[self.pos + i];
+            i += 1;
+        }
+        self.pos += n;
+        Ok(n)
+    }
+}
+
+/// C07/C08/C18: inductive step of the stream chunk iterator.
+///
+/// Pre-state: an arbitrary iterator state satisfying the invariant `Inv`
+/// (DESIGN.md C07) over a symbolic stream of T bytes, with the reader at
+/// offset r. One `next()` is executed with a symbolic read schedule (and,
+/// when FAULT, a read failure at a symbolic call). The yielded chunk must be
+/// the next piece of the specification's chunk sequence and `Inv` must hold
+/// afterwards.
+#[cfg(kani)]
+pub fn stream_step<C: Case, A: Automaton, const T: usize, const CAP: usize, const FAULT: bool>(aut: &A) {
+    use aho_corasick::verif::automaton as hk;
+    let min = C::MAXLEN;
+    let hay: [u8; T] = any();
+    let r: usize = any();
+    let end: usize = any();
+    let bpos: usize = any();
+    let rpos: usize = any();
+    let m0: usize = any();
+    assume(r <= T && end <= CAP && end <= r && bpos <= end && rpos <= bpos);
+    let base = r - end;
+    let abs = base + bpos;
+    let e0 = base + rpos;
+    assume(m0 <= e0);
+    assume(base == 0 || bpos >= min);
+    // sid = walk(hay[m0..abs]) with no match state strictly inside
+    let start = aut.start_state(Anchored::No).unwrap();
+    let mut sid = start;
+    let mut j = 0;
+    while j < T {
+        if j >= m0 && j < abs {
+            if j > m0 {
+                assume(!aut.is_match(sid));
+            }
+            sid = aut.next_state(Anchored::No, sid, hay[j]);
+        }
+        j += 1;
+    }
+    // a match state is only ever current at the position where it was entered
+    // and with the bytes before the match start already (or about to be) emitted
+    let nm = oracle::standard(C::pats(), &hay[..], m0, T, false, C::CI);
+    if let Some((_, ns, _)) = nm {
+        assume(ns >= e0);
+    }
+    let mut bufdata = vec![0u8; CAP];
+    let mut i = 0;
+    while i < CAP {
+        if i < end {
+            bufdata[i] = hay[base + i];
+        }
+        i += 1;
+    }
+    let fail_at: usize = if FAULT { any() } else { usize::MAX };
+    let mut rdr = SymReader::new(&hay[..], r, fail_at);
+    let mut out = [0u8; CAP];
+    let post = hk::step(aut, &mut rdr, bufdata, min, end, sid, abs, bpos, rpos, &mut out);
+    let r2 = rdr.pos;
+    // ---- post-state invariant
+    assert!(post.buf_end <= CAP && post.buf_end <= r2, "Inv: buffer end");
+    assert!(post.buffer_pos <= post.buf_end && post.buffer_reported_pos <= post.buffer_pos, "Inv: positions ordered");
+    let base2 = r2 - post.buf_end;
+    assert!(post.absolute_pos == base2 + post.buffer_pos, "Inv: absolute position");
+    assert!(base2 == 0 || post.buffer_pos >= min, "Inv: rolled buffer keeps min bytes");
+    let mut k = 0;
+    while k < CAP {
+        if k < post.buf_end {
+            assert!(out[k] == hay[base2 + k], "Inv: buffer content is the stream suffix");
+        }
+        k += 1;
+    }
+    let e2 = base2 + post.buffer_reported_pos;
+    let m2 = match post.kind {
+        2 => post.mat.unwrap().end(),
+        _ => m0,
+    };
+    assert!(m2 <= e2, "Inv: emitted prefix covers the last match");
+    let mut sid2 = start;
+    let mut ok_inside = true;
+    let mut j = 0;
+    while j < T {
+        if j >= m2 && j < post.absolute_pos {
+            if j > m2 && aut.is_match(sid2) {
+                ok_inside = false;
+            }
+            sid2 = aut.next_state(Anchored::No, sid2, hay[j]);
+        }
+        j += 1;
+    }
+    assert!(sid2 == post.sid && ok_inside, "Inv: automaton state is the walk since the last match");
+    // ---- the yielded item
+    match post.kind {
+        2 => {
+            let m = post.mat.unwrap();
+            assert!(same(Some(m), nm), "stream match differs from the in-memory definition");
+            assert!(base2 + post.chunk_start == e0 && e0 == m.start() && post.chunk_len == m.end() - m.start(), "match chunk is not exactly the matched bytes");
+            assert!(e2 == m.end(), "emitted prefix after a match");
+        }
+        1 => {
+            assert!(base2 + post.chunk_start == e0, "non-match chunk does not start at the emitted prefix (bytes lost or repeated)");
+            assert!(post.chunk_len > 0, "empty non-match chunk");
+            assert!(e2 == e0 + post.chunk_len, "emitted prefix after a non-match chunk");
+            assert!(e2 <= r2, "chunk beyond the bytes read");
+            match nm {
+                Some((_, ns, _)) => assert!(e2 <= ns, "non-match chunk contains bytes of the next match"),
+                None => {}
+            }
+        }
+        0 => {
+            assert!(rdr.eof_seen, "end of stream reported although the reader did not report it");
+            assert!(nm.is_none(), "stream search ends before the last match");
+            assert!(e0 == T, "stream ends with bytes never emitted");
+        }
+        _ => {
+            assert!(FAULT && rdr.failed, "error item without a reader failure");
+            assert!(e2 == e0, "emitted prefix moves on an error item");
+        }
+    }
+    if FAULT && rdr.failed {
+        assert!(post.kind == 3, "reader failure not reported as an error item");
+    }
+    cover!(post.kind == 2, "a match chunk");
+    cover!(post.kind == 1, "a non-match chunk");
+    cover!(post.kind == 0, "end of stream");
+    cover!(post.kind == 2 && base2 > 0, "a match after the buffer rolled");
+    cover!(post.kind == 2 && base2 > base, "a match in the call that rolled the buffer");
+    if FAULT {
+        cover!(post.kind == 3 && r2 > r, "an error after some bytes were read in the same call");
+    }
+}
+
+/// The initial state satisfies `Inv` trivially; this harness runs the real
+/// constructor and the first K calls and checks the yielded matches against
+/// the specification (complete run, short streams).
+#[cfg(kani)]
+pub fn stream_run<C: Case, A: Automaton, const T: usize, const K: usize>(aut: &A) {
+    aho_corasick::verif::buffer::set_spare_capacity(Some(1));
+    let hay: [u8; T] = any();
+    let rdr = SymReader::new(&hay[..], 0, usize::MAX);
+    let mut it = aut.try_stream_find_iter(rdr).unwrap();
+    let mut pos = 0usize;
+    let mut n = 0;
+    let mut done = false;
+    while n < K {
+        if !done {
+            let got = it.next();
+            let want = oracle::standard(C::pats(), &hay[..], pos, T, false, C::CI);
+            match (got, want) {
+                (None, None) => done = true,
+                (Some(Ok(m)), Some((p, s, e))) => {
+                    assert!(m.pattern().as_usize() == p && m.start() == s && m.end() == e, "stream match differs from the in-memory iterator");
+                    pos = e;
+                }
+                _ => {
+                    assert!(false, "stream iterator and in-memory iterator disagree on the number of matches");
+                    done = true;
+                }
+            }
+        }
+        n += 1;
+    }
+    cover!(done && pos > 0, "a complete run with a match");
+    core::mem::forget(it);
+}
+
+/// Sink that appends into a fixed array and may fail at a symbolic call.
+pub struct SymWriter<const W: usize> {
+    pub out: [u8; W],
+    pub len: usize,
+    pub calls: usize,
+    pub fail_at: usize,
+    pub failed: bool,
+    pub overflow: bool,
+}
+
+impl<const W: usize> std::io::Write for SymWriter<W> {
+    fn write(&mut self, buf: &[u8]) -> std::io::Result<usize> {
+        let call = self.calls;
+        self.calls += 1;
+        if call == self.fail_at {
+            self.failed = true;
+            return Err(std::io::Error::from(std::io::ErrorKind::Other));
+        }
+        let mut i = 0;
+        while i < buf.len() {
+            if self.len < W {
+                self.out[self.len] = buf[i];
+                self.len += 1;
+            } else {
+                self.overflow = true;
+            }
+            i += 1;
+        }
+        Ok(buf.len())
+    }
+    fn flush(&mut self) -> std::io::Result<()> {
+        Ok(())
+    }
+}
+
+/// C08/C18: complete stream replacement run (closure variant) on a short
+/// stream: output equals the in-memory replacement; the closure receives the
+/// matched bytes and the absolute match; with WFAULT a writer failure at a
+/// symbolic call surfaces as `Err` and what was written is a prefix of the
+/// fault-free output.
+#[cfg(kani)]
+pub fn stream_replace<C: Case, A: Automaton, const T: usize, const W: usize, const WFAULT: bool>(aut: &A) {
+    aho_corasick::verif::buffer::set_spare_capacity(Some(1));
+    let hay: [u8; T] = any();
+    let rdr = SymReader::new(&hay[..], 0, usize::MAX);
+    let fail_at: usize = if WFAULT { any() } else { usize::MAX };
+    let mut wtr = SymWriter::<W> { out: [0; W], len: 0, calls: 0, fail_at, failed: false, overflow: false };
+    let mut closure_ok = true;
+    let hayref = &hay;
+    let res = aut.try_stream_replace_all_with(rdr, &mut wtr, |m, bytes, w| {
+        // the closure must be handed exactly the matched bytes
+        if bytes.len() != m.end() - m.start() || m.end() > T {
+            closure_ok = false;
+        } else {
+            let mut i = 0;
+            while i < bytes.len() {
+                if bytes[i] != hayref[m.start() + i] {
+                    closure_ok = false;
+                }
+                i += 1;
+            }
+        }
+        // replacement: '0' + pattern id, twice for odd ids (different lengths)
+        let tag = b'0' + m.pattern().as_usize() as u8;
+        std::io::Write::write_all(w, &[tag])?;
+        if m.pattern().as_usize() % 2 == 1 {
+            std::io::Write::write_all(w, &[tag])?;
+        }
+        Ok(())
+    });
+    assert!(closure_ok, "replacement closure is not handed the matched bytes / absolute match");
+    // specification output
+    let mut want = [0u8; W];
+    let mut nw = 0;
+    let mut pos = 0;
+    let mut k = 0;
+    while k <= T {
+        if let Some((p, s, e)) = oracle::standard(C::pats(), &hay[..], pos, T, false, C::CI) {
+            let mut i = pos;
+            while i < s {
+                want[nw] = hay[i];
+                nw += 1;
+                i += 1;
+            }
+            want[nw] = b'0' + p as u8;
+            nw += 1;
+            if p % 2 == 1 {
+                want[nw] = b'0' + p as u8;
+                nw += 1;
+            }
+            pos = e;
+        } else {
+            let mut i = pos;
+            while i < T {
+                want[nw] = hay[i];
+                nw += 1;
+                i += 1;
+            }
+            pos = T + 1;
+            k = T;
+        }
+        k += 1;
+    }
+    assert!(!wtr.overflow, "harness output array too small");
+    if WFAULT && wtr.failed {
+        assert!(res.is_err(), "writer failure not reported");
+        assert!(wtr.len <= nw, "more bytes written than the fault-free output has");
+    } else {
+        assert!(res.is_ok(), "stream replacement failed without a fault");
+        assert!(wtr.len == nw, "stream replacement output length differs from in-memory replacement");
+    }
+    let mut i = 0;
+    while i < W {
+        if i < wtr.len {
+            assert!(wtr.out[i] == want[i], "stream replacement output differs from in-memory replacement");
+        }
+        i += 1;
+    }
+    cover!(nw != T, "a replacement changes the length");
+    if WFAULT {
+        cover!(wtr.failed && wtr.len > 0, "a writer failure after some output");
+    }
+    core::mem::forget(res);
+}
+
+// ---------------------------------------------------------------------------
+// C12: replace_all
+
+/// `try_replace_all_with_bytes` vs the splice specification. The closure
+/// appends a tag (1 byte for even pattern ids, 2 bytes for odd ones) and
+/// returns `false` on its `stop`-th call (symbolic).
+#[cfg(kani)]
+pub fn replace_bytes<C: Case, A: Automaton, const N: usize, const W: usize>(aut: &A) {
+    let hay: [u8; N] = any();
+    let stop: usize = any();
+    let mut dst: Vec<u8> = Vec::with_capacity(W);
+    let mut calls = 0usize;
+    let mut handed_ok = true;
+    let hayref = &hay;
+    aut.try_replace_all_with_bytes(&hay[..], &mut dst, |m, bytes, dst| {
+        if bytes.len() != m.end() - m.start() || bytes.as_ptr() != hayref[m.start()..].as_ptr() {
+            handed_ok = false;
+        }
+        let tag = b'0' + m.pattern().as_usize() as u8;
+        dst.push(tag);
+        if m.pattern().as_usize() % 2 == 1 {
+            dst.push(tag);
+        }
+        calls += 1;
+        calls != stop
+    })
+    .unwrap();
+    assert!(handed_ok, "closure is not handed the matched bytes");
+    // specification
+    let mut want = [0u8; W];
+    let mut nw = 0;
+    let mut pos = 0;
+    let mut last: Option<usize> = None;
+    let mut copied_from = 0;
+    let mut ncalls = 0usize;
+    let mut k = 0;
+    let mut go = true;
+    while k <= N {
+        if go {
+            match oracle::iter_next(C::pats(), &hay[..], pos, N, last, C::MK, false, C::CI) {
+                Some((p, s, e)) => {
+                    let mut i = copied_from;
+                    while i < s {
+                        want[nw] = hay[i];
+                        nw += 1;
+                        i += 1;
+                    }
+                    want[nw] = b'0' + p as u8;
+                    nw += 1;
+                    if p % 2 == 1 {
+                        want[nw] = b'0' + p as u8;
+                        nw += 1;
+                    }
+                    copied_from = e;
+                    pos = e;
+                    last = Some(e);
+                    ncalls += 1;
+                    if ncalls == stop {
+                        go = false;
+                    }
+                }
+                None => go = false,
+            }
+        }
+        k += 1;
+    }
+    let mut i = copied_from;
+    while i < N {
+        want[nw] = hay[i];
+        nw += 1;
+        i += 1;
+    }
+    assert!(dst.len() == nw, "replace_all output length differs from the splice definition");
+    let mut i = 0;
+    while i < W {
+        if i < nw {
+            assert!(dst[i] == want[i], "replace_all output differs from the splice definition");
+        }
+        i += 1;
+    }
+    cover!(ncalls >= 1 && ncalls == stop, "closure stops the replacement");
+    cover!(ncalls >= 2, "two replacements");
+    core::mem::forget(dst);
+}
+
+/// `try_replace_all_with` on a valid UTF-8 haystack: no panic, output is the
+/// splice of the matches whose bounds are character boundaries, and it is
+/// valid UTF-8.
+#[cfg(kani)]
+pub fn replace_str<C: Case, A: Automaton, const N: usize, const W: usize>(aut: &A) {
+    let hay: [u8; N] = any();
+    let n: usize = any();
+    assume(n <= N);
+    let st = core::str::from_utf8(&hay[..n]);
+    assume(st.is_ok());
+    let text = st.unwrap();
+    let mut dst = String::with_capacity(W);
+    aut.try_replace_all_with(text, &mut dst, |m, _s, dst| {
+        dst.push((b'0' + m.pattern().as_usize() as u8) as char);
+        true
+    })
+    .unwrap();
+    // specification
+    let boundary = |i: usize| -> bool { i == n || (i < n && (hay[i] as i8) >= -0x40) };
+    let mut want = [0u8; W];
+    let mut nw = 0;
+    let mut pos = 0;
+    let mut last: Option<usize> = None;
+    let mut copied_from = 0;
+    let mut k = 0;
+    let mut go = true;
+    while k <= N {
+        if go {
+            match oracle::iter_next(C::pats(), &hay[..], pos, n, last, C::MK, false, C::CI) {
+                Some((p, s, e)) => {
+                    if boundary(s) && boundary(e) {
+                        let mut i = copied_from;
+                        while i < s {
+                            want[nw] = hay[i];
+                            nw += 1;
+                            i += 1;
+                        }
+                        want[nw] = b'0' + p as u8;
+                        nw += 1;
+                        copied_from = e;
+                    }
+                    pos = e;
+                    last = Some(e);
+                }
+                None => go = false,
+            }
+        }
+        k += 1;
+    }
+    let mut i = copied_from;
+    while i < n {
+        want[nw] = hay[i];
+        nw += 1;
+        i += 1;
+    }
+    let out = dst.as_bytes();
+    assert!(out.len() == nw, "replace_all (str) output length differs from the splice definition");
+    let mut i = 0;
+    while i < W {
+        if i < nw {
+            assert!(out[i] == want[i], "replace_all (str) output differs from the splice definition");
+        }
+        i += 1;
+    }
+    cover!(n >= 2 && hay[0] >= 0xC2, "a multi-byte character in the haystack");
+    cover!(nw < n + 1 && copied_from > 0, "a replacement happened");
+    core::mem::forget(dst);
+}
+
+// ---------------------------------------------------------------------------
+// C17: purity (sequential histories)
+
+/// A search is unaffected by an arbitrary earlier search on the same value
+/// and gives the same answer on a clone.
+#[cfg(kani)]
+pub fn purity<C: Case, A: Automaton + Clone, const N: usize>(aut: &A) {
+    let h1: [u8; N] = any();
+    let h2: [u8; N] = any();
+    let (s1, e1) = any_span(N);
+    let (s2, e2) = any_span(N);
+    let fresh = aut.try_find(&Input::new(&h2[..]).span(s2..e2)).unwrap();
+    // an unrelated search (non-overlapping and one overlapping step) ...
+    let _ = aut.try_find(&Input::new(&h1[..]).span(s1..e1)).unwrap();
+    if C::MK == 0 {
+        let mut st = OverlappingState::start();
+        aut.try_find_overlapping(&Input::new(&h1[..]).span(s1..e1), &mut st).unwrap();
+    }
+    // ... must not change the answer, nor must cloning
+    let after = aut.try_find(&Input::new(&h2[..]).span(s2..e2)).unwrap();
+    assert!(fresh == after, "a search result depends on an earlier search");
+    let cl = aut.clone();
+    let on_clone = cl.try_find(&Input::new(&h2[..]).span(s2..e2)).unwrap();
+    assert!(fresh == on_clone, "a clone answers differently");
+    cover!(fresh.is_some(), "a match");
+    core::mem::forget(cl);
+}
+
+// ---------------------------------------------------------------------------
+// C19: bounded work
+
+/// After one search: at most one transition per byte of the span, positions
+/// strictly increasing, failure-link traversals <= transitions (NFAs) and
+/// none for the DFA.
+#[cfg(kani)]
+pub fn work<C: Case, A: Automaton, const N: usize, const AN: u8, const IS_DFA: bool>(aut: &A) {
+    use aho_corasick::verif::count;
+    let hay: [u8; N] = any();
+    let (s, e) = any_span(N);
+    let a = pick_anchored::<AN>();
+    count::reset();
+    let got = aut.try_find(&Input::new(&hay[..]).span(s..e).anchored(anch(a))).unwrap();
+    let (tr, fl, nonmono) = count::read();
+    assert!(tr <= e - s, "more than one automaton transition per byte of the span");
+    assert!(nonmono == 0, "the search position does not advance monotonically");
+    assert!(fl <= tr, "more failure-link traversals than transitions");
+    if IS_DFA {
+        assert!(fl == 0, "a DFA search follows a failure link");
+    }
+    cover!(tr == e - s && tr > 0, "every byte of the span is consumed");
+    if !IS_DFA {
+        cover!(fl > 0, "a failure link is followed");
+    }
+}
+
+/// Same for one overlapping step from the fresh state.
+#[cfg(kani)]
+pub fn work_ov<C: Case, A: Automaton, const N: usize, const IS_DFA: bool>(aut: &A) {
+    use aho_corasick::verif::count;
+    let hay: [u8; N] = any();
+    let (s, e) = any_span(N);
+    count::reset();
+    let mut st = OverlappingState::start();
+    aut.try_find_overlapping(&Input::new(&hay[..]).span(s..e), &mut st).unwrap();
+    let (tr, fl, nonmono) = count::read();
+    assert!(tr <= e - s, "more than one automaton transition per byte of the span");
+    assert!(nonmono == 0, "the search position does not advance monotonically");
+    assert!(fl <= tr, "more failure-link traversals than transitions");
+    if IS_DFA {
+        assert!(fl == 0, "a DFA search follows a failure link");
+    }
+}
+
+/// Structural lemma behind the amortised bound: every failure link of the
+/// noncontiguous NFA points to a strictly shallower state (so a traversal
+/// gives back depth that only a transition can have added). States LO..HI.
+#[cfg(kani)]
+pub fn fail_depth<C: Case, const LO: usize, const HI: usize>() {
+    let n = C::nnfa();
+    let raw_fail = aho_corasick::verif::nnfa::fail_and_depth;
+    let i: usize = any();
+    assume(i >= LO && i < HI);
+    let (fail, depth, fdepth, is_start_or_sentinel) = raw_fail(&n, i);
+    if !is_start_or_sentinel {
+        assert!(fdepth < depth || fail == 0, "a failure link does not point to a strictly shallower state");
+    }
+    cover!(!is_start_or_sentinel && fdepth + 1 < depth, "a failure link that skips more than one level");
+    core::mem::forget(n);
 }
